@@ -625,7 +625,7 @@ DIMS = {"c04_attempts": attempt_dims}
 def JOBS(tier):
     quick = tier == "quick"
     jobs = []
-    t = 120 if quick else 900
+    t = 120 if quick else 240
     from itertools import combinations
     for ei, ev in enumerate(EVENTS):
         cat = FIELDS.index(CATEGORY[ev])
@@ -637,7 +637,8 @@ def JOBS(tier):
         for extra in range(6):
             masks.add((1 << 0) | (1 << cat) | (1 << extra))
         if not quick:
-            masks = set(range(64))
+            for c in combinations(range(6), 3):
+                masks.add(sum(1 << i for i in c))
         for mk in sorted(masks):
             jobs.append({"func": "c04_increment", "timeout": t,
                          "part": {"event": ei, "mask": mk, "tf": [False], "cf": [False], "rf": [False]}})
@@ -669,7 +670,7 @@ EVIDENCE = {
                         "one more}) with UNBOUNDED symbolic integer values, False-valued total/connect/read, 4 allowed_methods "
                         "kinds x GET/POST; from_int and is_retry with unbounded ints; S: sleeps for history tails 0..5, integer "
                         "backoff factor/max/jitter arbitrary finite non-negative floats, random() arbitrary in [0,1), 7 Retry-After texts",
-               "thorough": "R: all 64 counter sets, all six counters over {None,0,1,2} jointly; S: tails 0..12"},
+               "thorough": "R: every set of <= 3 non-None counters, all six counters over {None,0,1,2} jointly; S: tails 0..12; U/L: histories of 3, all 5 methods"},
     "outside": ["NaN/inf backoff parameters", "Retry-After texts other than the 7 listed (parsing is email.utils, stdlib)"],
     "stubs": ["time module in util.retry -> recorder", "random.random in util.retry and backoff_jitter -> concrete pairs (jitter, random) in {(0,0),(0.25,0.5),(8,0.9999999),(0.5,0)} (symbolic*symbolic float products do not terminate); backoff_factor and backoff_max are symbolic floats"],
     "assumptions": ["composition: every extra request on the wire is preceded by one non-raising increment (lemma U), each "
